@@ -2,6 +2,8 @@ package main
 
 import (
 	"fmt"
+	"go/constant"
+	"go/types"
 	"sort"
 	"strconv"
 	"strings"
@@ -646,4 +648,127 @@ func c09R6(r *Run, pf, mf *c09fn) {
 			r.Check(kp+"success-after-selector-check", okAfter, r.Where(ret), "the struct case succeeds only after all fields and the unserved-selector check")
 		}
 	}
+}
+
+// ---- R9: integer conversions in the codec keep their value ---------------------------------
+//
+// The window arithmetic treats integers as ideal.  That is only sound when
+// every conversion between integer types in the codec functions keeps the
+// value: the target type holds every source value, or dominating guards
+// confine the operand (e.g. a length read from the input is compared with the
+// remaining input *before* it becomes an int).  The only declared bound is
+// fieldInfo.count ≤ 8, justified by two obligations of this rule: count is
+// written only from byteCount(…) (whose returns are constants ≤ 8) or from a
+// "size:" tag, and sizes above 8 are outside the documented tag grammar.
+func c09R9(r *Run, fns ...*c09fn) {
+	// byteCount returns constants ≤ 8
+	if bc := r.Fn("tls.byteCount"); bc != nil {
+		ok, n := true, 0
+		eachInstr(bc, func(in ssa.Instruction) {
+			if ret, isRet := in.(*ssa.Return); isRet && len(ret.Results) == 1 {
+				for _, v := range phiLeaves(ret.Results[0]) {
+					n++
+					c, isC := v.(*ssa.Const)
+					if !isC || c.Value == nil {
+						ok = false
+						continue
+					}
+					if i, exact := constant.Int64Val(c.Value); !exact || i < 0 || i > 8 {
+						ok = false
+					}
+				}
+			}
+		})
+		r.Check("count-source:byteCount-returns-at-most-8", ok && n > 0, r.FnPos(bc), fmt.Sprintf("%d returned constants, all in [0,8]: %v", n, ok))
+	}
+	// writers of fieldInfo.count
+	ws := r.FieldWriters("tls.fieldInfo.count")
+	nw := 0
+	for fnName, sts := range ws {
+		for _, in := range sts {
+			st := in.(*ssa.Store)
+			nw++
+			d := r.D.D(st.Val)
+			src := ""
+			switch {
+			case strings.HasPrefix(d, "tls.byteCount("):
+				src = "byteCount"
+			default:
+				if cv, ok := st.Val.(*ssa.Convert); ok {
+					if ex, ok := cv.X.(*ssa.Extract); ok && ex.Index == 0 {
+						if call, ok := ex.Tuple.(*ssa.Call); ok && CalleeOf(call) == "strconv.ParseUint" {
+							src = "size-tag"
+						}
+					}
+				}
+			}
+			r.Check("count-source:"+short(fnName)+":"+d, src != "", r.Where(in),
+				"fieldInfo.count is written from byteCount(…) or a parsed \"size:\" tag only (source: "+src+")")
+		}
+	}
+	r.Floor("writers of fieldInfo.count", nw, 3)
+	for _, c := range fns {
+		if c == nil {
+			continue
+		}
+		n := 0
+		eachInstr(c.fn, func(in ssa.Instruction) {
+			cv, ok := in.(*ssa.Convert)
+			if !ok || !isIntType(cv.Type()) || !isIntType(cv.X.Type()) {
+				return
+			}
+			n++
+			// data values, not lengths: v.Uint() of a value whose Go type the dispatch fixed
+			// to uintN holds an N-bit number (R2/R3 check the dispatch and the widths)
+			if strings.HasPrefix(r.D.D(cv.X), "(reflect.Value).Uint(") && isUnsigned(cv.Type()) && len(c.regs) > 0 {
+				bits := c.e.r.P.Sizes().Sizeof(cv.Type().Underlying()) * 8
+				lab := regionLabel(c.regs, in.Block())
+				if lab == fmt.Sprintf("uint%dType", bits) || (bits == 8 && (lab == arrayCase || lab == sliceCase)) {
+					r.Pass("conv:"+c.name+"["+lab+"]:"+types.TypeString(cv.Type(), nil)+"("+r.D.D(cv.X)+")", r.Where(in),
+						"data value of the dispatched Go type ("+lab+"): holds at most "+fmt.Sprint(bits)+" bits")
+					return
+				}
+			}
+			pres := c.e.convPreserves(cv)
+			ci := c.e.convs[cv]
+			r.Check("conv:"+c.name+":"+types.TypeString(cv.Type(), nil)+"("+r.D.D(cv.X)+")", pres, r.Where(in),
+				"integer conversion keeps its value: "+ci.why+c09DebugFacts(c, cv))
+		})
+		r.Funcs[FuncName(c.fn)] = true
+		_ = n
+	}
+}
+
+// phiLeaves flattens φ-nodes into the values they merge.
+func phiLeaves(v ssa.Value) []ssa.Value {
+	seen := map[ssa.Value]bool{}
+	var out []ssa.Value
+	var walk func(ssa.Value)
+	walk = func(v ssa.Value) {
+		if seen[v] {
+			return
+		}
+		seen[v] = true
+		if p, ok := v.(*ssa.Phi); ok {
+			for _, e := range p.Edges {
+				walk(e)
+			}
+			return
+		}
+		out = append(out, v)
+	}
+	walk(v)
+	return out
+}
+
+func c09DebugFacts(c *c09fn, cv *ssa.Convert) string {
+	if c.e.convs[cv].ok {
+		return ""
+	}
+	var fs []string
+	for _, f := range c.e.factsAt(cv.Block()) {
+		fs = append(fs, f.String()+" ≥ 0")
+	}
+	sort.Strings(fs)
+	return "; facts at the conversion: " + strings.Join(fs, ", ")
 }
